@@ -527,7 +527,7 @@ def c19(ctx):
         ctx.export_tamper_validate("c19-forged", dict(DATA33, MaxSend=3, MaxFlight=2), "fifo-data", per_msg=0, allpos=True, maxsched=150)
         ctx.model("c19-5x4", dict(DATA33, MaxSend=5, MaxFlight=4), inv)
         ctx.model("c19-bag", dict(DATA33, NetMode="bag", MaxSend=3, MaxFlight=2, MaxDup=2, MaxDrop=1), inv)
-        for n in (400, 800, 1600, 3200):
+        for n in (400, 800, 1600):   # validation time grows with the square of the length (history variables)
             ctx.random_validate("pingpong", 2, n, tag="pp%d" % n)
             ctx.random_validate("oneway", 2, n, tag="ow%d" % n)
         ctx.random_validate("bag", 64, 400)
